@@ -118,6 +118,89 @@ func opEmissions(c *Ctx) []emission {
 	return out
 }
 
+// takeAlwaysHelperOK: fn has a FallbackAccount value parameter whose address is pushed on every path to the emission,
+// and at every call site the argument is `*fb` with `fb != nil` established. Returns "" when so.
+func takeAlwaysHelperOK(c *Ctx, fn *ssa.Function, emission ssa.Instruction, fbT *types.Named, pushAddr *ssa.Function, isFallbackPtr func(ssa.Value) bool) string {
+	var param *ssa.Parameter
+	for _, p := range fn.Params {
+		if types.Identical(p.Type(), fbT) {
+			param = p
+		}
+	}
+	if param == nil {
+		return "no fallback parameter"
+	}
+	pushed := guardedByStep(c, fn, emission, func(ins ssa.Instruction) bool {
+		call, ok := ins.(*ssa.Call)
+		if !ok || !callsFn(call, pushAddr) {
+			return false
+		}
+		a := call.Call.Args[1]
+		for i := 0; i < 4; i++ {
+			switch x := a.(type) {
+			case *ssa.Convert:
+				a = x.X
+				continue
+			case *ssa.ChangeType:
+				a = x.X
+				continue
+			}
+			break
+		}
+		return stripLoadOfParamCell(a) == ssa.Value(param)
+	})
+	if !pushed {
+		return "the helper does not push the account it was given before emitting"
+	}
+	sites := c.CallersOf(fn)
+	if len(sites) == 0 {
+		return "no call site"
+	}
+	pi := paramIndex(param)
+	for _, site := range sites {
+		caller := site.Parent()
+		args := site.Common().Args
+		if caller == nil || pi >= len(args) {
+			return "unresolved call site"
+		}
+		u, ok := args[pi].(*ssa.UnOp)
+		if !ok || u.Op != token.MUL || !isFallbackPtr(u.X) {
+			return "a call site passes something else than a dereferenced fallback pointer"
+		}
+		ptr := u.X
+		if !guardedByFact(c, caller, site, func(f Fact) (bool, bool) {
+			if f.X == ptr && isNilConst(f.Y) {
+				return true, !f.Eq
+			}
+			return false, false
+		}) {
+			return "a call site passes *fallback without having established fallback != nil"
+		}
+	}
+	return ""
+}
+
+// guardedByStep: every path from the entry to `use` passes an instruction for which hit holds.
+func guardedByStep(c *Ctx, fn *ssa.Function, use ssa.Instruction, hit func(ssa.Instruction) bool) bool {
+	ok, seen := true, false
+	pr := &PathRule{
+		Step: func(pc *PathCtx, s uint64, ins ssa.Instruction) uint64 {
+			if hit(ins) {
+				s |= 1
+			}
+			if ins == use {
+				seen = true
+				if s&1 == 0 {
+					ok = false
+				}
+			}
+			return s
+		},
+	}
+	c.RunPaths(fn, 0, pr)
+	return ok && seen
+}
+
 // ---- R01a ------------------------------------------------------------------------------------
 
 func ruleR01a(c *Ctx) {
@@ -199,6 +282,14 @@ func ruleR01a(c *Ctx) {
 			},
 		}
 		c.RunPaths(fn, 0, pr)
+		if !okAll {
+			// (B) a helper that receives the fallback account by value: it pushes that account before emitting, and
+			// every call site passes `*fb` on a path that established `fb != nil`
+			if why := takeAlwaysHelperOK(c, fn, e.ins, fbT, pushAddr, isFallbackPtr); why == "" {
+				c.ok(rule, key, e.ins.Pos(), "emitted by a helper for the fallback account it is given (pushed first); every call site passes a non-nil fallback")
+				continue
+			}
+		}
 		if okAll {
 			c.ok(rule, key, e.ins.Pos(), "emitted only under `fallback != nil`, after pushing that fallback's address")
 		} else {
@@ -1303,8 +1394,10 @@ func ruleR12c(c *Ctx) {
 					okAdv = false
 					trail = pc.Trail()
 				}
-				if _, isB := constBool(ret.Results[0]); !isB {
+				if _, isB := constBool(ret.Results[0]); !isB && s&1 == 0 {
+					// `return cond, nil`: may report `not finished`, so the path must have advanced P
 					okAdv = false
+					trail = pc.Trail()
 				}
 			}
 		},
